@@ -249,6 +249,8 @@ RED_IDS = (
     "hc:str", "str3p", "int:E1", "estr", "int:byte",
 )
 
+FLAG_IDS = ("opt:char", "dummy:char", "break", "int:char")
+
 SWITCH_SHAPES = ("one", "two", "case+default", "empty+default")
 SWITCH_ON = (("char", "1", "2"), ("E1", "A", "B"), ("E2", "Big", "7"))
 
@@ -365,10 +367,15 @@ def grammar(tier):
                 seen.add(i)
                 out.append(s)
 
+    # G_flag: the interplay of the generator's context flags (optional reached, dummy reached, chunked, switch
+    # inheritance) over a 4-template alphabet, two nodes deeper than the general grammar
+    flag = [t for t in temps if t["id"] in FLAG_IDS]
     if tier == "quick":
         add(enumerate_bodies(temps, 2))
         add(enumerate_bodies(red, 3, switch_on=SWITCH_ON[:2]))
+        add(enumerate_bodies(flag, 4, switch_on=SWITCH_ON[:1]))
     else:
+        add(enumerate_bodies(flag, 5, switch_on=SWITCH_ON[:1]))
         add(enumerate_bodies(temps, 2))
         add(enumerate_bodies(red, 4, switch_on=SWITCH_ON[:2]))
         add(enumerate_bodies(temps, 3, switch_on=SWITCH_ON[:1]))
